@@ -8,9 +8,13 @@
 //!                                 "strings": [[code points]..], "words": [[code points]..]}
 //!                                 optional "pairs": [[a, b]..] - the operand pairs of the binary primitives
 //!                                 (default: every ordered pair of floats and ints)
+//! It has no dependencies (own JSON reader): the same source is also built by /verif/primgen81 with the repository's pinned
+//! toolchain, because libm results (cbrt, ...) differ between toolchains and a table must come from the toolchain that built the
+//! execution it is compared with.
 //! Output (JSON file, argument 2): {"<op>": {"<key>": result, ...}, ...} where key is TLC's ToString of
 //! <<a, b>> (binary) or <<a>> (unary), e.g. `<<<<16368, 0, 0, 0>>, <<0, 0, 0, 0>>>>`.
-use serde_json::{json, Map, Value as J};
+mod json;
+use json::{esc, J};
 
 fn words(f: f64) -> Vec<u64> {
     let b = f.to_bits();
@@ -18,18 +22,18 @@ fn words(f: f64) -> Vec<u64> {
 }
 fn from_words(j: &J) -> f64 {
     let mut b = 0u64;
-    for w in j.as_array().expect("float words") {
-        b = (b << 16) | w.as_u64().expect("word");
+    for w in j.arr() {
+        b = (b << 16) | w.u64();
     }
     f64::from_bits(b)
 }
 fn limbs_int(j: &J) -> i64 {
-    let a = j.as_array().expect("limbs");
+    let a = j.arr();
     let mut m: u128 = 0;
     for k in (1..6).rev() {
-        m = (m << 15) | a[k].as_u64().unwrap() as u128;
+        m = (m << 15) | a[k].u64() as u128;
     }
-    if a[0].as_u64().unwrap() == 0 {
+    if a[0].u64() == 0 {
         m as i64
     } else {
         (m as i128).wrapping_neg() as i64
@@ -39,7 +43,7 @@ fn tla_seq(xs: &[u64]) -> String {
     format!("<<{}>>", xs.iter().map(|x| x.to_string()).collect::<Vec<_>>().join(", "))
 }
 fn tla_j(j: &J) -> String {
-    tla_seq(&j.as_array().unwrap().iter().map(|x| x.as_u64().unwrap()).collect::<Vec<_>>())
+    tla_seq(&j.arr().iter().map(|x| x.u64()).collect::<Vec<_>>())
 }
 fn key1(a: &str) -> String {
     format!("<<{a}>>")
@@ -47,19 +51,30 @@ fn key1(a: &str) -> String {
 fn key2(a: &str, b: &str) -> String {
     format!("<<{a}, {b}>>")
 }
-fn text(j: &J) -> String {
-    j.as_array().unwrap().iter().map(|c| char::from_u32(c.as_u64().unwrap() as u32).unwrap()).collect()
+fn nums(xs: &[u64]) -> String {
+    format!("[{}]", xs.iter().map(|x| x.to_string()).collect::<Vec<_>>().join(","))
 }
-fn cps(s: &str) -> J {
-    J::Array(s.chars().map(|c| json!(c as u32)).collect())
+fn cps(s: &str) -> String {
+    format!("[{}]", s.chars().map(|c| (c as u32).to_string()).collect::<Vec<_>>().join(","))
+}
+
+/// One table: key -> JSON text of the value (insertion order kept; later duplicates replace earlier ones).
+#[derive(Default)]
+struct Table(std::collections::BTreeMap<String, String>);
+impl Table {
+    fn insert(&mut self, k: String, v: String) {
+        self.0.insert(k, v);
+    }
+    fn json(&self) -> String {
+        format!("{{{}}}", self.0.iter().map(|(k, v)| format!("{}:{}", esc(k), v)).collect::<Vec<_>>().join(","))
+    }
 }
 
 fn main() {
     let args: Vec<String> = std::env::args().collect();
-    let input: J = serde_json::from_str(&std::fs::read_to_string(&args[1]).expect("read request")).expect("json");
-    let empty = vec![];
-    let floats: Vec<f64> = input["floats"].as_array().unwrap_or(&empty).iter().map(from_words).collect();
-    let ints: Vec<&J> = input["ints"].as_array().unwrap_or(&empty).iter().collect();
+    let input: J = json::parse(&std::fs::read_to_string(&args[1]).expect("read request")).expect("json");
+    let floats: Vec<f64> = input.get("floats").arr().iter().map(from_words).collect();
+    let ints: Vec<&J> = input.get("ints").arr().iter().collect();
     let mut all: Vec<f64> = floats.clone();
     for i in &ints {
         all.push(limbs_int(i) as f64);
@@ -68,7 +83,7 @@ fn main() {
     all.sort_by_key(|f| f.to_bits());
     all.dedup_by_key(|f| f.to_bits());
 
-    let mut out = Map::new();
+    let mut out: Vec<(String, Table)> = Vec::new();
     let bin: Vec<(&str, fn(f64, f64) -> f64)> = vec![
         ("fadd", |a, b| a + b),
         ("fsub", |a, b| a - b),
@@ -82,26 +97,23 @@ fn main() {
     ];
     // binary primitives: every ordered pair of the pool, unless the request lists the pairs it needs ("pairs")
     let mut pairs: Vec<(f64, f64)> = Vec::new();
-    match input.get("pairs").and_then(|p| p.as_array()) {
-        Some(ps) => {
-            for p in ps {
-                pairs.push((from_words(&p[0]), from_words(&p[1])));
+    if input.has("pairs") {
+        for p in input.get("pairs").arr() {
+            pairs.push((from_words(&p.arr()[0]), from_words(&p.arr()[1])));
+        }
+    } else {
+        for a in &all {
+            for b in &all {
+                pairs.push((*a, *b));
             }
-        },
-        None => {
-            for a in &all {
-                for b in &all {
-                    pairs.push((*a, *b));
-                }
-            }
-        },
+        }
     }
     for (name, f) in bin {
-        let mut m = Map::new();
+        let mut m = Table::default();
         for (a, b) in &pairs {
-            m.insert(key2(&tla_seq(&words(*a)), &tla_seq(&words(*b))), json!(words(f(*a, *b))));
+            m.insert(key2(&tla_seq(&words(*a)), &tla_seq(&words(*b))), nums(&words(f(*a, *b))));
         }
-        out.insert(name.into(), J::Object(m));
+        out.push((name.into(), m));
     }
     let un: Vec<(&str, fn(f64) -> f64)> = vec![
         ("ln", f64::ln),
@@ -128,48 +140,49 @@ fn main() {
         ("ceil", f64::ceil),
     ];
     for (name, f) in un {
-        let mut m = Map::new();
+        let mut m = Table::default();
         for a in &all {
-            m.insert(key1(&tla_seq(&words(*a))), json!(words(f(*a))));
+            m.insert(key1(&tla_seq(&words(*a))), nums(&words(f(*a))));
         }
-        out.insert(name.into(), J::Object(m));
+        out.push((name.into(), m));
     }
     // Display of floats (Rust's shortest round-trip formatting), as code points
-    let mut m = Map::new();
+    let mut m = Table::default();
     for a in &all {
         m.insert(key1(&tla_seq(&words(*a))), cps(&a.to_string()));
     }
-    out.insert("fdisplay".into(), J::Object(m));
+    out.push(("fdisplay".into(), m));
     // Debug of floats (used inside error messages only)
-    let mut m = Map::new();
+    let mut m = Table::default();
     for a in &all {
         m.insert(key1(&tla_seq(&words(*a))), cps(&format!("{:?}", a)));
     }
-    out.insert("fdebug".into(), J::Object(m));
+    out.push(("fdebug".into(), m));
     // i64 -> f64 (cross-check of Float64.IntToFloat)
-    let mut m = Map::new();
+    let mut m = Table::default();
     for i in &ints {
-        m.insert(key1(&tla_j(i)), json!(words(limbs_int(i) as f64)));
+        m.insert(key1(&tla_j(i)), nums(&words(limbs_int(i) as f64)));
     }
-    out.insert("i2f".into(), J::Object(m));
+    out.push(("i2f".into(), m));
     // case mapping and parsing of words
-    let mut lo = Map::new();
-    let mut up = Map::new();
-    for s in input["strings"].as_array().unwrap_or(&empty) {
-        let t = text(s);
+    let mut lo = Table::default();
+    let mut up = Table::default();
+    for s in input.get("strings").arr() {
+        let t = s.text();
         lo.insert(key1(&tla_j(s)), cps(&t.to_lowercase()));
         up.insert(key1(&tla_j(s)), cps(&t.to_uppercase()));
     }
-    out.insert("lower".into(), J::Object(lo));
-    out.insert("upper".into(), J::Object(up));
-    let mut fp = Map::new();
-    for s in input["words"].as_array().unwrap_or(&empty) {
-        let t = text(s);
+    out.push(("lower".into(), lo));
+    out.push(("upper".into(), up));
+    let mut fp = Table::default();
+    for s in input.get("words").arr() {
+        let t = s.text();
         // only words that denote a double are listed; asking for any other word is an error of the asking model
         if let Ok(f) = t.parse::<f64>() {
-            fp.insert(key1(&tla_j(s)), json!(words(f)));
+            fp.insert(key1(&tla_j(s)), nums(&words(f)));
         }
     }
-    out.insert("fparse".into(), J::Object(fp));
-    std::fs::write(&args[2], serde_json::to_string(&J::Object(out)).unwrap()).expect("write table");
+    out.push(("fparse".into(), fp));
+    let text = format!("{{{}}}", out.iter().map(|(n, t)| format!("{}:{}", esc(n), t.json())).collect::<Vec<_>>().join(","));
+    std::fs::write(&args[2], text).expect("write table");
 }
